@@ -141,4 +141,33 @@ example : Lex.atBoundary (fun _ => false) "(@.a)]".toList = true := by decide
 example : isInfix "bc".toList "abcd".toList = true := by decide
 example : Rfc.singularSegs [.child [.name ['a']], .child [.index 0]] = true := by decide
 
+/-! ### The non-standard type functions `typeof` / `type` and `isinstance` / `is` (function_extensions/typeof.py, is_instance.py) -/
+
+/-- `typeof(q)` is the JSON name of the type of the value `q` selects - "undefined" when it selects nothing, "array"
+    for the list of values when it selects several. -/
+theorem typeof_spec (env : Env) (cur : J) (key : Option Part) (q : List Seg) :
+    evalExpr env cur key (.func "typeof".toList [.self q]) =
+      .val (.str (typeofVals ((evalSegs env q [⟨[], env.rootTok, cur⟩]).map (·.val)))) := by
+  simp [evalExpr, applyFn, evalArgs, fnTypeof]
+
+theorem typeof_names (v : J) (v' : J) (vs : List J) :
+    typeofVals [] = "undefined".toList ∧ typeofVals [v] = typeName v ∧ typeofVals (v :: v' :: vs) = "array".toList := by
+  refine ⟨rfl, rfl, rfl⟩
+
+/-- `type` is `typeof`, `is` is `isinstance`: the registry holds the same function under both names. -/
+theorem type_function_aliases (env : Env) (cur : J) (key : Option Part) (args : List Expr) :
+    evalExpr env cur key (.func "type".toList args) = evalExpr env cur key (.func "typeof".toList args) ∧
+    evalExpr env cur key (.func "is".toList args) = evalExpr env cur key (.func "isinstance".toList args) := by
+  constructor <;> simp [evalExpr, applyFn]
+
+/-- `isinstance(q, typeof(q))` is true for every query and document: the name `typeof` reports is among the names
+    `isinstance` accepts for the same nodes. -/
+theorem isinstance_accepts_typeof (vs : List J) : (aliasesOfVals vs).contains (typeofVals vs) = true := by
+  unfold aliasesOfVals typeofVals
+  cases vs with
+  | nil => decide
+  | cons v rest =>
+    simp only [List.isEmpty_cons, Bool.false_eq_true, if_false]
+    cases h : valuesOrSingular (v :: rest) <;> simp [typeName, typeAliases]
+
 end JP.Props.C13
